@@ -2,6 +2,7 @@
 Serves C01 (behaviour), C03 (life events), C02 (same histories under sanitizers)."""
 import json
 import os
+import re
 import vlib
 
 KINDS = ("sv", "ipv", "stack")
@@ -13,13 +14,19 @@ def _state_key(t, which):
 
 
 def _call(t):
-    return {"op": t["op"], "o": t["o"], "x": t["x"], "cap": t["cap"]}
+    c = {"op": t["op"], "o": t["o"], "x": t["x"], "cap": t["cap"]}
+    if t.get("bad"):
+        c["bad"] = True
+    return c
 
 
-def model(tier, rep, name="Vector"):
+def model(tier, rep, name="Vector", mode="valid"):
     """MC + GEN for the three API surfaces. Returns {kind: {cap: script_path}} and stats."""
     consts = {"quick": {"Caps": "{0, 1, 2, 3}", "Vals": "{0, 1}", "MaxXs": "3"},
               "thorough": {"Caps": "{0, 1, 2, 3}", "Vals": "{0, 1, 2}", "MaxXs": "3"}}[tier]
+    consts["Mode"] = '"%s"' % mode
+    if mode == "contract":
+        consts["Vals"] = "{0, 1}"
     from concurrent.futures import ThreadPoolExecutor
     out = {}
 
@@ -27,7 +34,7 @@ def model(tier, rep, name="Vector"):
         c = dict(consts)
         if tier == "thorough" and kind != "sv":
             c["Caps"] = "{0, 1, 2, 3, 4}"
-        return kind, vlib.tlc_mc("Vector.tla", "Vector_%s.cfg" % kind, "vector_%s_%s" % (kind, tier),
+        return kind, vlib.tlc_mc("Vector.tla", "Vector_%s.cfg" % kind, "vector_%s_%s_%s" % (kind, tier, mode),
                                  workers=6 if kind == "sv" else 3, constants=c, heap="6g")
     with ThreadPoolExecutor(max_workers=3) as ex:
         res = dict(ex.map(one, KINDS))
@@ -36,7 +43,9 @@ def model(tier, rep, name="Vector"):
         rep.add_mc("Vector[%s]" % kind, r)
         gen = [t for t in r["gen"] if t["op"] != "init"]
         empty = json.dumps({"a": [], "b": []}, sort_keys=True)
-        sc, st = vlib.plan_edges(gen, _state_key, lambda n: json.loads(n)[1] == {"a": [], "b": []} and json.loads(n)[2] == [], _call)
+        sc, st = vlib.plan_edges(gen, _state_key, lambda n: json.loads(n)[1] == {"a": [], "b": []} and json.loads(n)[2] == [], _call,
+                                 follow=lambda t: not t.get("bad"))
+        st["bad_edges"] = sum(1 for t in gen if t.get("bad"))
         if st["unreachable"]:
             raise vlib.ModelFailure("planner: %d unreachable edges in Vector[%s]" % (st["unreachable"], kind))
         bycap = {}
@@ -45,12 +54,13 @@ def model(tier, rep, name="Vector"):
         scripts[kind] = {}
         d = vlib.workdir("scripts")
         for cap, ss in bycap.items():
-            p = os.path.join(d, "vector_%s_%s_cap%d.ndjson" % (kind, tier, cap))
+            p = os.path.join(d, "vector_%s_%s_%s_cap%d.ndjson" % (kind, tier, mode, cap))
             vlib.write_scripts(ss, p)
             scripts[kind][cap] = (p, len(ss))
         rep.cov["modules"]["Vector[%s]" % kind].update({"scripts": len(sc), "planner": st})
-        if sc:
-            rep.sample({"module": "Vector[%s]" % kind, "script": sc[len(sc) // 2]})
+        pick = [x for x in sc if x[-1].get("bad")] if mode == "contract" else sc
+        if pick:
+            rep.sample({"module": "Vector[%s]" % kind, "script": pick[len(pick) // 2]})
     rep.cov["exhaustive"] = True
     return scripts
 
@@ -60,9 +70,15 @@ BIG_CAPS_Q = "7,8,255,256"
 BIG_CAPS_T = "5,7,8,15,16,254,255,256"
 
 
-def build_drivers(tier, sanitize=False, std=True):
+CONTRACT_FLAGS = {"checks": ["-DVH_CONTRACT", "-DTETL_ENABLE_CONTRACT_CHECKS", "-DTETL_ENABLE_CUSTOM_ASSERT_HANDLER"],
+                  "safe": ["-DVH_CONTRACT", "-DTETL_ENABLE_CONTRACT_CHECKS_SAFE", "-DTETL_ENABLE_CUSTOM_ASSERT_HANDLER"]}
+
+
+def build_drivers(tier, sanitize=False, std=True, contract=None):
     san = ["-fsanitize=address,undefined", "-fno-sanitize-recover=all", "-g"] if sanitize else []
-    sfx = "_san" if sanitize else ""
+    sfx = ("_san" if sanitize else "") + (("_" + contract) if contract else "")
+    if contract:
+        san = san + CONTRACT_FLAGS[contract]
     big = BIG_CAPS_Q if tier == "quick" else BIG_CAPS_T
     jobs = [dict(src="vector_driver.cpp", out="vector_etl_small" + sfx, flags=["-DVH_CAPS=" + SMALL_CAPS] + san),
             dict(src="vector_driver.cpp", out="vector_etl_big" + sfx, flags=["-DVH_CAPS=" + big] + san)]
@@ -76,7 +92,10 @@ def build_drivers(tier, sanitize=False, std=True):
             "std_big": paths[3] if std else None, "bigcaps": [int(c) for c in big.split(",")]}
 
 
-def execute(tier, scripts, bins, impl="etl", tag=""):
+RANDOM_ELEMS = ("int", "trk", "mo", "co")
+
+
+def execute(tier, scripts, bins, impl="etl", tag="", random=True):
     """Replay all scripts + seeded random histories. Returns list of trace paths and counts."""
     d = vlib.workdir("traces")
     tasks = []
@@ -95,17 +114,19 @@ def execute(tier, scripts, bins, impl="etl", tag=""):
                 nscripts += n
     steps = 400 if tier == "quick" else 3000
     nhist = 0
-    for kind in KINDS:
+    for kind in (KINDS if random else ()):
         if impl == "std" and kind == "ipv":
             continue
-        for elem in ELEMS:
+        for elem in RANDOM_ELEMS:
+            if kind == "stack" and elem in ("mo", "co"):
+                continue
             for cap in bins["bigcaps"]:
                 tp = os.path.join(d, "vector_%s_%s_%s_r%d%s.ndjson" % (impl, kind, elem, cap, tag))
                 tasks.append(([bins[impl + "_big"], "random", kind, elem, str(cap), str(steps), str(vlib.seed())], tp))
                 outs.append(tp)
                 nhist += 1
     res = vlib.run_parallel(tasks)
-    unsupported = sorted({l for _, err in res for l in err.splitlines() if l.startswith("UNSUPPORTED")})
+    unsupported = sorted({re.sub(r"_\d+ ", " ", l) for _, err in res for l in err.splitlines() if l.startswith("UNSUPPORTED")})
     leaks = [l for _, err in res for l in err.splitlines() if l.startswith("SUMMARY") and not l.endswith("live_delta=0")]
     return outs, {"scripts": nscripts, "histories": nhist, "unsupported": unsupported, "leaks": leaks}
 
@@ -155,3 +176,21 @@ def pipeline(tier, rep, calibrate=True):
                                     % (d["kind"], json.dumps(d.get("ev"))[:500]))
         rep.cov["modules"]["Vector"]["calibration_events_std"] = ctv["events"]
     return tv, st
+
+
+def contract_pipeline(tier, rep):
+    """C05 for the vector family: violating calls exported by the contract-mode model, run in forked
+    children of the contract-checked build; plus every valid script in that build (no spurious firing)."""
+    scripts = model(tier, rep, mode="contract")
+    variants = ["checks"] if tier == "quick" else ["checks", "safe"]
+    total = {"events": 0, "deviations": []}
+    nscr = 0
+    for var in variants:
+        bins = build_drivers(tier, std=False, contract=var, sanitize=(tier == "thorough"))
+        traces, st = execute(tier, scripts, bins, "etl", tag="_c" + var, random=True)
+        merged = concat(traces, os.path.join(vlib.workdir("traces"), "vector_contract_%s" % var), 8)
+        tv = vlib.tv_parallel("VectorTrace.tla", "VectorTrace.cfg", merged, "vector_tv_contract_" + var)
+        rep.add_tv("Vector[contract:%s]" % var, tv, st["scripts"] + st["histories"])
+        rep.cov["modules"]["Vector[contract:%s]" % var]["not_drivable"] = st["unsupported"]
+        nscr += st["scripts"]
+    return nscr
